@@ -7,6 +7,7 @@
 //   bi<a>.<b>      node a .biPropDependsOn(node b)
 //   clr<s>         graph.subgraph(s).clear()
 //   clrall         graph.clearSubgraphs()
+//   gclear         graph.clear()                        (drops every subgraph, fresh subgraph 0)
 //   move           G moved(std::move(graph)); continue with `moved`
 //   mark<n>        node n .setIncomplete()
 //   setall         setAllNodesIncomplete(graph)
@@ -225,13 +226,18 @@ static Program genProgram(Rng& r, bool biprop, int maxNodes, int exec, bool mixE
       // clear one subgraph (or everything) and rebuild
       int s = sgOf[(size_t)live[(size_t)r.below((int)live.size())]];
       int removed = 0;
-      if (r.chance(8)) {
-        push("clrall");
+      if (r.chance(10)) {
+        bool whole = r.chance(40);
+        push(whole ? "gclear" : "clrall");
         for (int i = 1; i < nextId; ++i)
           if (alive[(size_t)i]) {
             alive[(size_t)i] = false;
             ++removed;
           }
+        if (whole) {
+          nsg = 1;
+          s = 0;
+        }
       } else {
         push("clr", s);
         for (int i = 1; i < nextId; ++i)
@@ -411,6 +417,12 @@ struct World {
       for (size_t i = 1; i < node.size(); ++i)
         if (node[i])
           forget((int)i);
+    } else if (o.op == "gclear") {
+      ctl::note("gclear", 0, 0);
+      g->clear();
+      for (size_t i = 1; i < node.size(); ++i)
+        if (node[i])
+          forget((int)i);
     } else if (o.op == "move") {
       ctl::note("move", 0, 0);
       std::unique_ptr<G> g2(new G(std::move(*g)));
@@ -576,7 +588,7 @@ static void executeBig(const Program& prog, int nthreads, ctl::Trace& tr, const 
       j.endArr();
       j.endArr();
       w.doOp(o);
-      if (o.op == "setall" || o.op == "prop" || o.op == "clr") {
+      if (o.op == "setall" || o.op == "prop" || o.op == "clr" || o.op == "gclear") {
         j.key("s").beginObj();
         w.project(j);
         j.endObj();
